@@ -350,6 +350,8 @@ pub struct FxPlan {
     pub app_rows: Option<Vec<AppRow>>,
     /// The rows are laid out in this many CSV files (>= 1); all files share one loader.
     pub app_files: usize,
+    /// Run the rows through run_acb_app_to_console (tables on the captured stdout) instead of the delta models.
+    pub app_console: bool,
     pub net_faults: Vec<Option<String>>,
     pub fs_faults: FsFaultSpec,
     pub knobs: Knobs,
@@ -428,7 +430,7 @@ pub fn run_fx_process(plan: FxPlan) -> FxObs {
     let mut env = ProcEnv::new(plan.hash_seed, plan.today);
     env.knobs = plan.knobs.clone();
     env.fs_faults = plan.fs_faults.to_faults();
-    let FxPlan { data, today, published_today, force, cache, mem_in, lookups, app_rows, app_files, net_faults, .. } = plan;
+    let FxPlan { data, today, published_today, force, cache, mem_in, lookups, app_rows, app_files, app_console, net_faults, .. } = plan;
     let out: ProcOut<Inner> = run_process(&env, move || {
         use acb::fx::io::{CsvRatesCache, InMemoryRatesCache, RateLoader, RatesCache};
         use acb::util::rw::WriteHandle;
@@ -476,6 +478,11 @@ pub fn run_fx_process(plan: FxPlan) -> FxObs {
                     .enumerate()
                     .map(|(fi, chunk)| acb::util::rw::DescribedReader::from_string(format!("sim{}.csv", fi), app_csv_from(chunk, fi * per)))
                     .collect();
+                if app_console {
+                    let res = block_on(acb::app::run_acb_app_to_console(readers, std::collections::HashMap::new(), acb::app::Options::default(), loader, err.clone()));
+                    let reqs = log.borrow().clone();
+                    return (obs, Some(res.map(|_| vec![]).map_err(|_| "run_acb_app_to_console returned Err".to_string())), reqs, MemState::new());
+                }
                 let res = block_on(acb::app::run_acb_app_to_delta_models(
                     readers,
                     std::collections::HashMap::new(),
@@ -564,6 +571,7 @@ impl Reference {
             lookups: vec![d],
             app_rows: None,
             app_files: 1,
+            app_console: false,
             net_faults: vec![],
             fs_faults: FsFaultSpec::default(),
             knobs: Knobs::default(),
